@@ -284,7 +284,7 @@ def gen(tier, seed):
     k = 0
     for (w, h, d) in shapes:
         n = w * h * d
-        bcs = ([(k + j * 3) % 8 for j in range(2)] if (w, h, d) != (4, 1, 3) else [5, 7]) if tier == "quick" else range(8)
+        bcs = ([(k + j * 3) % 8 for j in range(2)] if (w, h, d) != (4, 1, 3) else [1, 3, 5, 7]) if tier == "quick" else range(8)
         k += 1
         tag = "%d%d%d" % (w, h, d)
         add("bij_%s" % tag, "c15-bijection", "bijection(%d, %d, %d, 0, i)" % (w, h, d), ["pre: 0 <= i < %d" % n],
